@@ -71,8 +71,17 @@ def detect_consts():
     if not (isinstance(b[1], ast.With) and _u(b[1].items[0].context_expr) == "suppress(KeyError)" and len(b[1].body) == 1
             and _u(b[1].body[0]) == "return EXTENSION_MAP[ext]"):
         raise Unsupported("detect_language: map lookup shape")
-    if not (isinstance(b[2], ast.If) and _u(b[2].test) == "file_path.exists() and file_path.stat().st_size > 0" and not b[2].orelse):
-        raise Unsupported(f"detect_language: shebang guard {_u(b[2].test)}")
+    if not (isinstance(b[2], ast.If) and not b[2].orelse):
+        raise Unsupported("detect_language: shebang guard")
+    t = b[2].test
+    parts = [_u(v) for v in t.values] if isinstance(t, ast.BoolOp) and isinstance(t.op, ast.And) else [_u(t)]
+    tail = ["file_path.exists()", "file_path.stat().st_size > 0"]
+    if parts == tail:
+        any_ext = True          # the fallback is tried for every unmapped extension
+    elif parts in (["not ext"] + tail, ["ext == ''"] + tail):
+        any_ext = False         # ... only for extensionless names
+    else:
+        raise Unsupported(f"detect_language: shebang guard {_u(t)}")
     inner = b[2].body
     if not (len(inner) == 2 and _u(inner[0]) == "lang = _detect_from_shebang(file_path)" and isinstance(inner[1], ast.If)
             and _u(inner[1].test) == "lang" and _u(inner[1].body[0]) == "return lang" and not inner[1].orelse):
@@ -111,7 +120,8 @@ def detect_consts():
     for x in (prefix, needle, result, unknown):
         if not isinstance(x, str):
             raise Unsupported("non-string constant in language detector")
-    return (defn("ext_lowered", "bool", "true" if lowered else "false") + defn("shebang_prefix", "string", coq_string(prefix))
+    return (defn("ext_lowered", "bool", "true" if lowered else "false") + defn("shebang_guard_any_ext", "bool", "true" if any_ext else "false")
+            + defn("shebang_prefix", "string", coq_string(prefix))
             + defn("shebang_needle", "string", coq_string(needle)) + defn("shebang_lang", "string", coq_string(result))
             + defn("unknown_lang", "string", coq_string(unknown)))
 
